@@ -1,4 +1,397 @@
 (* Proofs about Model/KeysDer.v (C02: the DER key containers decoded from the bytes). *)
 From Coq Require Import ZifyN ZifyNat ZifyBool Lia.
 From WI Require Import Lib.Base Lib.Info Lib.Strings Model.Keys Model.Der Model.KeysDer Proofs.Keys Proofs.Der.
+Import gen.KeyTables.
 Open Scope N_scope.
+
+(* ------------------------------------------------------------------ *)
+(* lengths                                                             *)
+(* ------------------------------------------------------------------ *)
+Lemma enc_hdr_small_length : forall comp t n, t < 31 -> (length (enc_hdr 0 comp t n) <= 6)%nat.
+Proof.
+  intros comp t n Ht. unfold enc_hdr, enc_tag, enc_len. rewrite app_length.
+  replace (t <? 31) with true by (symmetry; apply N.ltb_lt; exact Ht).
+  destruct (n <? 128); [cbn [length]; lia|]. destruct (n <? 256); [cbn [length]; lia|].
+  destruct (n <? 65536); [cbn [length]; lia|]. destruct (n <? 16777216); cbn [length]; lia.
+Qed.
+
+Lemma tlv_enc_length : forall t comp c, t < 31 ->
+  (length c <= length (tlv_enc t comp c) <= length c + 6)%nat.
+Proof.
+  intros. unfold tlv_enc. rewrite app_length.
+  pose proof (enc_hdr_small_length comp t (N.of_nat (length c)) H). lia.
+Qed.
+
+Lemma der_int_enc_length : forall n, (length (der_int_enc n) <= length (be_min n) + 1)%nat.
+Proof.
+  intros n. unfold der_int_enc. destruct (be_min n) as [|x r]; [cbn [length]; lia|].
+  destruct (128 <=? x); cbn [length]; lia.
+Qed.
+
+Lemma int_wf_length : forall n, int_wf n = true -> N.of_nat (length (der_int_enc n)) <= 1048578.
+Proof.
+  intros n H. unfold int_wf in H. apply N.leb_le in H.
+  pose proof (der_int_enc_length n). pose proof (length_be_min n) as L.
+  assert ((N.size n + 7) / 8 <= 1048577).
+  { apply N.div_le_upper_bound; lia. }
+  lia.
+Qed.
+
+Lemma size_le_55 : forall e, e < 36028797018963968 -> N.size e <= 55.
+Proof.
+  intros e H. destruct (N.eq_dec e 0) as [->|Hz]; [cbn; lia|].
+  rewrite N.size_log2 by assumption.
+  assert (N.log2 e < 55); [|lia].
+  apply N.log2_lt_pow2; [lia|exact H].
+Qed.
+
+Lemma exp_wf_length : forall e, exp_wf e = true -> (length (der_int_enc e) <= 8)%nat.
+Proof.
+  intros e H. unfold exp_wf in H. apply N.ltb_lt in H.
+  pose proof (der_int_enc_length e). pose proof (length_be_min e) as L.
+  pose proof (size_le_55 e H).
+  assert ((N.size e + 7) / 8 < 8).
+  { apply N.div_lt_upper_bound; lia. }
+  lia.
+Qed.
+
+Lemma enc_int_length : forall n, int_wf n = true -> N.of_nat (length (enc_int n)) <= 1048584.
+Proof.
+  intros n H. unfold enc_int. pose proof (tlv_enc_length 2 false (der_int_enc n) ltac:(lia)).
+  pose proof (int_wf_length n H). lia.
+Qed.
+
+Lemma exp_wf_int_wf : forall e, exp_wf e = true -> int_wf e = true.
+Proof.
+  intros e H. unfold exp_wf in H. apply N.ltb_lt in H. unfold int_wf. apply N.leb_le.
+  pose proof (size_le_55 e H). lia.
+Qed.
+
+(* ------------------------------------------------------------------ *)
+(* one field read back from its encoding                               *)
+(* ------------------------------------------------------------------ *)
+Lemma field_enc : forall opt t comp c rest,
+  t < 2147483648 -> len_ok (length c) = true ->
+  field opt t comp (tlv_enc t comp c ++ rest) = Ok (Some c, rest).
+Proof.
+  intros opt t comp c rest Ht Hl. unfold field, tlv_enc.
+  destruct ((enc_hdr 0 comp t (N.of_nat (length c)) ++ c) ++ rest) eqn:E.
+  { exfalso. pose proof (enc_hdr_length 0 comp t (N.of_nat (length c))) as L.
+    apply (f_equal (@length N)) in E. rewrite !app_length in E. cbn [length] in E. lia. }
+  rewrite <- E. rewrite <- app_assoc.
+  unfold len_ok in Hl. apply N.ltb_lt in Hl.
+  rewrite parse_tl_enc by (try assumption; lia).
+  cbn [h_class h_tag h_comp h_len]. rewrite !N.eqb_refl, Bool.eqb_reflx. cbn [andb].
+  rewrite split_at_N_app. reflexivity.
+Qed.
+
+Lemma seq_enc : forall body rest, len_ok (length body) = true ->
+  seq (enc_seq body ++ rest) = Ok (body, rest).
+Proof. intros. unfold seq, enc_seq. rewrite field_enc by (try assumption; lia). reflexivity. Qed.
+
+Lemma len_ok_le : forall n, N.of_nat n <= 2000000000 -> len_ok n = true.
+Proof. intros. unfold len_ok. apply N.ltb_lt. lia. Qed.
+
+Lemma bigint_field_enc : forall opt n rest, int_wf n = true ->
+  bigint_field opt (enc_int n ++ rest) = Ok (Some (der_int_enc n), rest).
+Proof.
+  intros opt n rest H. unfold bigint_field, enc_int.
+  rewrite field_enc; [|lia|apply len_ok_le; pose proof (int_wf_length n H); lia].
+  cbn [bind]. rewrite der_int_roundtrip. reflexivity.
+Qed.
+
+Lemma bigint_enc : forall n rest, int_wf n = true ->
+  bigint (enc_int n ++ rest) = Ok (der_int_enc n, rest).
+Proof. intros. unfold bigint. rewrite bigint_field_enc by assumption. reflexivity. Qed.
+
+Lemma int_field_enc : forall e rest, exp_wf e = true ->
+  int_field (enc_int e ++ rest) = Ok (der_int_enc e, rest).
+Proof.
+  intros e rest H. unfold int_field, enc_int.
+  pose proof (exp_wf_length e H) as L.
+  rewrite field_enc; [|lia|apply len_ok_le; lia].
+  cbn [req bind fst snd]. unfold int64_ok. rewrite der_int_roundtrip. cbn [bind].
+  replace (Nat.ltb 8 (length (der_int_enc e))) with false; [reflexivity|].
+  symmetry. apply Nat.ltb_ge. exact L.
+Qed.
+
+(* ------------------------------------------------------------------ *)
+(* PKCS#1, DSA: the description from the bytes of the encoding         *)
+(* ------------------------------------------------------------------ *)
+Ltac pose_lengths :=
+  repeat match goal with
+  | H : exp_wf ?x = true |- _ =>
+      lazymatch goal with
+      | _ : int_wf x = true |- _ => fail
+      | _ => pose proof (exp_wf_int_wf x H)
+      end
+  end;
+  repeat match goal with
+  | H : int_wf ?x = true |- _ =>
+      lazymatch goal with
+      | _ : N.of_nat (length (enc_int x)) <= 1048584 |- _ => fail
+      | _ => pose proof (enc_int_length x H)
+      end
+  end.
+Ltac len_tac := apply len_ok_le; pose_lengths; rewrite ?app_length; lia.
+
+Lemma exp_wf_0 : exp_wf 0 = true.
+Proof. reflexivity. Qed.
+
+Lemma enc_int_last : forall e, enc_int e = enc_int e ++ [].
+Proof. intros. now rewrite app_nil_r. Qed.
+
+Definition key_description (label : string) (alg : bytes) (n : N) : info :=
+  Info (bs label) [(bs "Algorithm", alg); (bs "Size", bits_value (bitlen n))] [].
+Arguments key_description label%string alg n.
+
+Lemma pkcs1_public_fields_enc : forall n e rest, int_wf n = true -> exp_wf e = true ->
+  pkcs1_public_fields (enc_pkcs1_public n e ++ rest) = Ok (der_int_enc n).
+Proof.
+  intros n e rest Hn He. unfold pkcs1_public_fields, enc_pkcs1_public.
+  rewrite seq_enc by len_tac. cbn [bind fst snd].
+  rewrite bigint_enc by assumption. cbn [bind fst snd].
+  rewrite (enc_int_last e), int_field_enc by assumption. reflexivity.
+Qed.
+
+Lemma pkcs1_public_der_enc : forall n e rest, int_wf n = true -> exp_wf e = true ->
+  parse_pkcs1_public_der (enc_pkcs1_public n e ++ rest) = Ok (key_description "PKCS#1 public key" name_rsa n).
+Proof.
+  intros. unfold parse_pkcs1_public_der, pkcs1_public_of_der.
+  rewrite pkcs1_public_fields_enc by assumption. cbn [opt_of parse_pkcs1_public].
+  unfold pkcs1_attrs, key_description. rewrite twos_der_int_enc, zbitlen_of_N. reflexivity.
+Qed.
+
+Lemma additional_primes_nil : additional_primes [] = Ok tt.
+Proof. reflexivity. Qed.
+
+Lemma pkcs1_private_fields_enc : forall n e d p q dp dq qinv rest,
+  int_wf n = true -> exp_wf e = true -> int_wf d = true -> int_wf p = true -> int_wf q = true ->
+  int_wf dp = true -> int_wf dq = true -> int_wf qinv = true ->
+  pkcs1_private_fields (enc_pkcs1_private n e d p q dp dq qinv ++ rest) = Ok (der_int_enc 0, der_int_enc n).
+Proof.
+  intros n e d p q dp dq qinv rest Hn He Hd Hp Hq Hdp Hdq Hqi.
+  pose proof exp_wf_0 as H0.
+  unfold pkcs1_private_fields, enc_pkcs1_private.
+  rewrite seq_enc by len_tac. cbn [bind fst snd].
+  rewrite int_field_enc by assumption. cbn [bind fst snd].
+  rewrite bigint_enc by assumption. cbn [bind fst snd].
+  rewrite int_field_enc by assumption. cbn [bind fst snd].
+  rewrite bigint_enc by assumption. cbn [bind fst snd].
+  rewrite bigint_enc by assumption. cbn [bind fst snd].
+  rewrite bigint_enc by assumption. cbn [bind fst snd].
+  rewrite bigint_field_enc by assumption. cbn [bind fst snd].
+  rewrite bigint_field_enc by assumption. cbn [bind fst snd].
+  rewrite (enc_int_last qinv), bigint_field_enc by assumption. cbn [bind fst snd].
+  rewrite additional_primes_nil. reflexivity.
+Qed.
+
+Lemma pkcs1_private_der_enc : forall n e d p q dp dq qinv rest,
+  int_wf n = true -> exp_wf e = true -> int_wf d = true -> int_wf p = true -> int_wf q = true ->
+  int_wf dp = true -> int_wf dq = true -> int_wf qinv = true ->
+  parse_pkcs1_private_der (enc_pkcs1_private n e d p q dp dq qinv ++ rest)
+  = Ok (key_description "PKCS#1 private key" name_rsa n).
+Proof.
+  intros. unfold parse_pkcs1_private_der, pkcs1_private_of_der.
+  rewrite pkcs1_private_fields_enc by assumption. cbn [parse_pkcs1_private].
+  unfold pkcs1_attrs, key_description. rewrite twos_der_int_enc, zbitlen_of_N. reflexivity.
+Qed.
+
+Lemma dsa_parameters_fields_enc : forall p q g rest, int_wf p = true -> int_wf q = true -> int_wf g = true ->
+  dsa_parameters_fields (enc_dsa_parameters p q g ++ rest) = Ok (der_int_enc p).
+Proof.
+  intros p q g rest Hp Hq Hg. unfold dsa_parameters_fields, enc_dsa_parameters.
+  rewrite seq_enc by len_tac. cbn [bind fst snd].
+  rewrite bigint_enc by assumption. cbn [bind fst snd].
+  rewrite bigint_enc by assumption. cbn [bind fst snd].
+  rewrite (enc_int_last g), bigint_enc by assumption. reflexivity.
+Qed.
+
+Lemma dsa_parameters_der_enc : forall p q g rest, int_wf p = true -> int_wf q = true -> int_wf g = true ->
+  parse_dsa_parameters_der (enc_dsa_parameters p q g ++ rest)
+  = Ok (Info (bs "DSA parameters") [(bs "Size", bits_value (bitlen p))] []).
+Proof.
+  intros. unfold parse_dsa_parameters_der, dsa_parameters_of_der.
+  rewrite dsa_parameters_fields_enc by assumption. cbn [opt_of parse_dsa_parameters].
+  unfold dsa_parameter_attrs. rewrite twos_der_int_enc, zbitlen_of_N. reflexivity.
+Qed.
+
+Lemma dsa_private_fields_enc : forall p q g y x rest,
+  int_wf p = true -> int_wf q = true -> int_wf g = true -> int_wf y = true -> int_wf x = true ->
+  dsa_private_fields (enc_dsa_private p q g y x ++ rest) = Ok (der_int_enc p).
+Proof.
+  intros p q g y x rest Hp Hq Hg Hy Hx. pose proof exp_wf_0 as H0.
+  unfold dsa_private_fields, enc_dsa_private.
+  rewrite seq_enc by len_tac. cbn [bind fst snd].
+  rewrite int_field_enc by assumption. cbn [bind fst snd].
+  rewrite bigint_enc by assumption. cbn [bind fst snd].
+  rewrite bigint_enc by assumption. cbn [bind fst snd].
+  rewrite bigint_enc by assumption. cbn [bind fst snd].
+  rewrite bigint_enc by assumption. cbn [bind fst snd].
+  rewrite (enc_int_last x), bigint_enc by assumption. reflexivity.
+Qed.
+
+Lemma dsa_private_der_enc : forall p q g y x rest,
+  int_wf p = true -> int_wf q = true -> int_wf g = true -> int_wf y = true -> int_wf x = true ->
+  parse_dsa_private_der (enc_dsa_private p q g y x ++ rest) = Ok (key_description "DSA private key" name_dsa p).
+Proof.
+  intros. unfold parse_dsa_private_der, dsa_private_of_der.
+  rewrite dsa_private_fields_enc by assumption. cbn [opt_of parse_dsa_private].
+  unfold dsa_attrs, key_description. rewrite twos_der_int_enc, zbitlen_of_N. reflexivity.
+Qed.
+
+(* ------------------------------------------------------------------ *)
+(* what is accepted, what is refused (PKCS#1 public key)               *)
+(* ------------------------------------------------------------------ *)
+Lemma field_inv : forall opt t comp data c rest,
+  bytes_ok data = true -> field opt t comp data = Ok (Some c, rest) ->
+  data = tlv_enc t comp c ++ rest /\ len_ok (length c) = true /\ t < 2147483648.
+Proof.
+  intros opt t comp data c rest Hok H. unfold field in H.
+  destruct data as [|b0 d0]; [destruct opt; discriminate|].
+  destruct (parse_tl (b0 :: d0)) as [[h r]| |] eqn:PT; try discriminate.
+  destruct ((h_class h =? 0) && (h_tag h =? t) && Bool.eqb (h_comp h) comp) eqn:M.
+  - destruct (split_at_N r (h_len h)) as [[a b]|] eqn:SP; [|discriminate].
+    inversion H; subst a b. clear H.
+    apply andb_prop in M as [M M3]. apply andb_prop in M as [M1 M2].
+    apply N.eqb_eq in M1, M2. apply Bool.eqb_prop in M3.
+    apply parse_tl_inv in PT as (E & Hc & Ht & Hn); [|exact Hok].
+    apply split_at_N_inv in SP as [E2 E3].
+    rewrite M1, M2, M3, <- E3 in E. subst r. unfold tlv_enc. rewrite <- app_assoc.
+    repeat split; [exact E| |lia].
+    unfold len_ok. apply N.ltb_lt. lia.
+  - destruct opt; discriminate.
+Qed.
+
+Lemma bytes_ok_tlv : forall t comp c rest, bytes_ok (tlv_enc t comp c ++ rest) = true ->
+  bytes_ok c = true /\ bytes_ok rest = true.
+Proof.
+  intros t comp c rest H. unfold tlv_enc in H. rewrite <- app_assoc in H.
+  apply bytes_ok_app in H as [_ H]. apply bytes_ok_app in H. exact H.
+Qed.
+
+Lemma req_field_inv : forall t comp data c rest,
+  bytes_ok data = true -> req (field false t comp data) = Ok (c, rest) ->
+  data = tlv_enc t comp c ++ rest /\ len_ok (length c) = true.
+Proof.
+  intros t comp data c rest Hok H. unfold req in H.
+  destruct (field false t comp data) as [[[c'|] r']| |] eqn:F; try discriminate.
+  cbn [bind] in H. inversion H; subst. apply field_inv in F as (E & L & _); auto.
+Qed.
+
+Lemma bigint_inv : forall data c rest, bytes_ok data = true -> bigint data = Ok (c, rest) ->
+  data = tlv_enc 2 false c ++ rest /\ is_ok (der_int_dec c) = true.
+Proof.
+  intros data c rest Hok H. unfold bigint, bigint_field, req in H.
+  destruct (field false 2 false data) as [[[c'|] r']| |] eqn:F; try discriminate; cbn [bind] in H.
+  - destruct (der_int_dec c') eqn:D; try discriminate. cbn [bind] in H. inversion H; subst.
+    apply field_inv in F as (E & _ & _); [|exact Hok]. split; [exact E|]. rewrite D. reflexivity.
+Qed.
+
+Lemma int_field_inv : forall data c rest, bytes_ok data = true -> int_field data = Ok (c, rest) ->
+  data = tlv_enc 2 false c ++ rest /\ is_ok (der_int_dec c) = true /\ (length c <= 8)%nat.
+Proof.
+  intros data c rest Hok H. unfold int_field in H.
+  destruct (req (field false 2 false data)) as [[c' r']| |] eqn:F; try discriminate. cbn [bind fst] in H.
+  unfold int64_ok in H. destruct (der_int_dec c') eqn:D; try discriminate. cbn [bind] in H.
+  destruct (Nat.ltb 8 (length c')) eqn:L; try discriminate. cbn [bind] in H. inversion H; subst.
+  apply req_field_inv in F as (E & _); [|exact Hok].
+  apply Nat.ltb_ge in L. repeat split; [exact E|rewrite D; reflexivity|exact L].
+Qed.
+
+(* everything the PKCS#1 public key reader accepts is ONE definite-length, minimally-headed universal
+   constructed SEQUENCE whose content begins with two minimally-encoded primitive INTEGERs, the second of
+   at most 8 octets; whatever follows them inside the SEQUENCE (extra) and after it (rest) is ignored,
+   as encoding/asn1 does; the description is that of the first INTEGER *)
+Lemma pkcs1_public_der_sound : forall der i, bytes_ok der = true ->
+  parse_pkcs1_public_der der = Ok i ->
+  exists cn ce extra rest,
+    der = enc_seq (tlv_enc 2 false cn ++ tlv_enc 2 false ce ++ extra) ++ rest
+    /\ is_ok (der_int_dec cn) = true /\ is_ok (der_int_dec ce) = true /\ (length ce <= 8)%nat
+    /\ i = Info (bs "PKCS#1 public key") (pkcs1_attrs (twos cn)) [].
+Proof.
+  intros der i Hok H. unfold parse_pkcs1_public_der, pkcs1_public_of_der, pkcs1_public_fields in H.
+  destruct (seq der) as [[body rest]| |] eqn:S; try discriminate. cbn [bind fst snd] in H.
+  destruct (bigint body) as [[cn r1]| |] eqn:B; try discriminate. cbn [bind fst snd] in H.
+  destruct (int_field r1) as [[ce r2]| |] eqn:I; try discriminate. cbn [bind fst snd opt_of parse_pkcs1_public] in H.
+  inversion H; subst i. clear H.
+  unfold seq in S. apply req_field_inv in S as (E & _); [|exact Hok].
+  rewrite E in Hok. apply bytes_ok_tlv in Hok as [Hb _].
+  apply bigint_inv in B as (E1 & D1); [|exact Hb].
+  rewrite E1 in Hb. apply bytes_ok_tlv in Hb as [_ Hr1].
+  apply int_field_inv in I as (E2 & D2 & L2); [|exact Hr1].
+  exists cn, ce, r2, rest. subst r1 body. unfold enc_seq. repeat split; assumption.
+Qed.
+
+(* the converse for surplus content: bytes after the two INTEGERs inside the SEQUENCE and after the SEQUENCE
+   do not change the description (Go: "We allow extra bytes at the end of the SEQUENCE") *)
+Lemma pkcs1_public_der_surplus : forall n e extra rest, int_wf n = true -> exp_wf e = true ->
+  N.of_nat (length extra) <= 1000000000 ->
+  parse_pkcs1_public_der (enc_seq (enc_int n ++ enc_int e ++ extra) ++ rest)
+  = Ok (key_description "PKCS#1 public key" name_rsa n).
+Proof.
+  intros n e extra rest Hn He Hx. unfold parse_pkcs1_public_der, pkcs1_public_of_der, pkcs1_public_fields.
+  rewrite seq_enc by len_tac. cbn [bind fst snd].
+  rewrite bigint_enc by assumption. cbn [bind fst snd].
+  rewrite int_field_enc by assumption. cbn [bind fst snd opt_of parse_pkcs1_public].
+  unfold pkcs1_attrs, key_description. rewrite twos_der_int_enc, zbitlen_of_N. reflexivity.
+Qed.
+
+(* refused: the exponent missing *)
+Lemma pkcs1_public_der_missing : forall n rest, int_wf n = true ->
+  parse_pkcs1_public_der (enc_seq (enc_int n) ++ rest) = Err "asn1".
+Proof.
+  intros n rest Hn. unfold parse_pkcs1_public_der, pkcs1_public_of_der, pkcs1_public_fields.
+  rewrite seq_enc by len_tac. cbn [bind fst snd].
+  rewrite (enc_int_last n), bigint_enc by assumption. reflexivity.
+Qed.
+
+(* refused: an outer element that is not a universal constructed SEQUENCE (any other tag number, or the
+   primitive form), whatever its content *)
+Lemma pkcs1_public_der_wrong_outer : forall t comp body rest,
+  t < 2147483648 -> len_ok (length body) = true -> (t =? 16) && comp = false ->
+  parse_pkcs1_public_der (tlv_enc t comp body ++ rest) = Err "asn1".
+Proof.
+  intros t comp body rest Ht Hl Hne. unfold parse_pkcs1_public_der, pkcs1_public_of_der, pkcs1_public_fields, seq, field, tlv_enc.
+  destruct ((enc_hdr 0 comp t (N.of_nat (length body)) ++ body) ++ rest) eqn:E.
+  { exfalso. pose proof (enc_hdr_length 0 comp t (N.of_nat (length body))) as L.
+    apply (f_equal (@length N)) in E. rewrite !app_length in E. cbn [length] in E. lia. }
+  rewrite <- E, <- app_assoc. unfold len_ok in Hl. apply N.ltb_lt in Hl.
+  rewrite parse_tl_enc by (try assumption; lia). cbn [h_class h_tag h_comp h_len].
+  replace ((0 =? 0) && (t =? 16) && Bool.eqb comp true) with false; [reflexivity|].
+  destruct comp; cbn [Bool.eqb andb] in *; [rewrite Bool.andb_true_r in Hne; rewrite Hne; reflexivity|].
+  now rewrite Bool.andb_false_r.
+Qed.
+
+(* refused: a modulus whose INTEGER content is empty or not minimal (checkInteger) *)
+Lemma pkcs1_public_der_bad_integer : forall c tail rest,
+  len_ok (length c) = true -> len_ok (length (tlv_enc 2 false c ++ tail)) = true ->
+  is_ok (der_int_dec c) = false ->
+  parse_pkcs1_public_der (enc_seq (tlv_enc 2 false c ++ tail) ++ rest) = Err "asn1".
+Proof.
+  intros c tail rest Hc Hl Hbad. unfold parse_pkcs1_public_der, pkcs1_public_of_der, pkcs1_public_fields.
+  rewrite seq_enc by assumption. cbn [bind fst snd].
+  unfold bigint, bigint_field. rewrite field_enc by (try assumption; lia). cbn [bind].
+  destruct (der_int_dec c); try discriminate; reflexivity.
+Qed.
+
+(* ---------- non-vacuity: concrete keys, evaluated from the bytes ---------- *)
+Lemma pkcs1_der_examples :
+  int_wf f26_n = true /\ exp_wf 65537 = true
+  /\ parse_pkcs1_public_der (enc_pkcs1_public f26_n 65537)
+     = Ok (Info (bs "PKCS#1 public key") [(bs "Algorithm", bs "RSA"); (bs "Size", bs "2047 bits")] [])
+  /\ parse_pkcs1_private_der (enc_pkcs1_private f26_n 65537 (f26_n - 2) (2 ^ 1023 + 1) (2 ^ 1023 - 1) 11 13 17)
+     = Ok (Info (bs "PKCS#1 private key") [(bs "Algorithm", bs "RSA"); (bs "Size", bs "2047 bits")] [])
+  /\ parse_dsa_parameters_der (enc_dsa_parameters (2 ^ 1022 + 7) (2 ^ 159 + 1) 5)
+     = Ok (Info (bs "DSA parameters") [(bs "Size", bs "1023 bits")] [])
+  /\ parse_dsa_private_der (enc_dsa_private (2 ^ 1022 + 7) (2 ^ 159 + 1) 5 6 7)
+     = Ok (Info (bs "DSA private key") [(bs "Algorithm", bs "DSA"); (bs "Size", bs "1023 bits")] [])
+  (* refused: exponent missing, SET instead of SEQUENCE, modulus written 00 01, 2^63 as exponent;
+     accepted (as encoding/asn1 does): a third INTEGER inside, bytes after the SEQUENCE *)
+  /\ parse_pkcs1_public_der (enc_seq (enc_int f26_n)) = Err "asn1"
+  /\ parse_pkcs1_public_der (tlv_enc 17 true (enc_int f26_n ++ enc_int 65537)) = Err "asn1"
+  /\ parse_pkcs1_public_der (enc_seq (tlv_enc 2 false [0; 1] ++ enc_int 65537)) = Err "asn1"
+  /\ parse_pkcs1_public_der (enc_seq (enc_int f26_n ++ enc_int (2 ^ 63))) = Err "asn1"
+  /\ is_ok (parse_pkcs1_public_der (enc_seq (enc_int f26_n ++ enc_int (2 ^ 63 - 1)))) = true
+  /\ is_ok (parse_pkcs1_public_der (enc_seq (enc_int f26_n ++ enc_int 65537 ++ enc_int 1) ++ [0; 0])) = true.
+Proof. vm_compute. repeat (match goal with |- _ /\ _ => split end); reflexivity. Qed.
